@@ -43,9 +43,11 @@ ASSUMPTIONS = [
     "requests are processed one at a time (a registrant waits for each response)",
 ]
 REQUIRED_MONITORS = {
-    "quick": {"lookup_ep_matches_model": 3000, "lookup_res_matches_model": 3000, "registration_resource_matches_model": 5000, "unchanged_after_4xx": 400, "location_rules": 500, "expiry": 300, "acceptance_pins": 12, "lookup_filter": 150, "pagination": 30},
-    "thorough": {"lookup_ep_matches_model": 100000, "lookup_res_matches_model": 100000, "registration_resource_matches_model": 150000, "unchanged_after_4xx": 12000, "location_rules": 15000, "expiry": 9000, "acceptance_pins": 12, "lookup_filter": 4000, "pagination": 800},
+    "quick": {"lookup_ep_matches_model": 15000, "lookup_res_matches_model": 15000, "registration_resource_matches_model": 25000, "unchanged_after_4xx": 6000, "location_rules": 3000, "expiry": 4000, "acceptance_pins": 12, "lookup_filter": 1500, "pagination": 500},
+    "thorough": {"lookup_ep_matches_model": 500000, "lookup_res_matches_model": 500000, "registration_resource_matches_model": 800000, "unchanged_after_4xx": 200000, "location_rules": 100000, "expiry": 120000, "acceptance_pins": 12, "lookup_filter": 50000, "pagination": 15000},
 }
+
+JUDGE_LOCATION_REUSE = False  # see do_reg: count (False) or report (True) the re-use of a freed location for another (ep, d)
 
 PEERS = [("10.0.0.2", 40000), ("10.0.0.3", 5683), ("2001:db8::2", 61616)]
 EPS = ["node1", "n2", "e-3.x", "sp ace"]
@@ -130,7 +132,7 @@ def linkset(i, tag):
 
 def plan(tier, seed):
     n = 16
-    per = {"quick": 300, "thorough": 11000}[tier]
+    per = {"quick": 250, "thorough": 11000}[tier]
     return [{"name": "c20-%d" % i, "seed": seed * 1000 + i, "index": i, "of": n, "n": per, "tier": tier} for i in range(n)]
 
 
@@ -308,6 +310,16 @@ def mm_kind(mm):
     return which, "differs"
 
 
+# When several rejected requests could explain an observed lifetime the violation is filed under the first of this
+# order (naming only; the witness lists all of them).
+ALT_ORDER = ["update-post-with-body", "update-put", "update-post", "reregister"]
+
+
+def alt_rank(a):
+    w = a[2]
+    return (ALT_ORDER.index(w) if w in ALT_ORDER else len(ALT_ORDER), a[0])
+
+
 class Runner:
     def __init__(self, loop, rep, case, h, grace, mods):
         self.loop, self.rep, self.case, self.h, self.grace = loop, rep, case, h, grace
@@ -393,6 +405,8 @@ class Runner:
             if not more:
                 break
             n += 1
+            if n == 1:
+                self.rep.count("responses_fetched_blockwise")
             if n > 400:
                 raise Unusable("endless block-wise response")
             m = await self.request1(pi, code, segs, queries, b"", cf, (num + 1, False, sz))
@@ -496,6 +510,7 @@ class Runner:
                 raise Stop
         mm = compare(ref, self.model, obs)
         if not mm:
+            self.model.prune_refuted(now)
             return
         opclass = ctx.get("opclass", "idle")
         # 1. a request answered 4.xx (5.xx) that was nevertheless (partly) carried out
@@ -520,28 +535,28 @@ class Runner:
             listed = set(h for h, _a in obs["ep"])
             for g in list(adj.ghosts):
                 if g.loc in listed and g.key not in adj.live:
-                    for t, lt, w in g.alts:
-                        if now < t + lt + self.grace:
-                            g.t, g.lt = t, lt
-                            adj.ghosts.remove(g)
-                            adj.live[g.key] = g
-                            if g.loc in adj.freed:
-                                adj.freed.remove(g.loc)
-                            why.append(("listed-beyond", w, g))
-                            break
+                    expl = sorted([a for a in g.alts if now < a[0] + a[1] + self.grace], key=alt_rank)
+                    if expl:
+                        g.t, g.lt = expl[0][0], expl[0][1]
+                        g.alts = [a for a in g.alts if a[0] > g.t]
+                        adj.ghosts.remove(g)
+                        adj.live[g.key] = g
+                        if g.loc in adj.freed:
+                            adj.freed.remove(g.loc)
+                        why.append(("listed-beyond", expl[0][2], g, expl))
             for r in list(adj.live.values()):
                 if r.loc not in listed:
-                    for t, lt, w in r.alts:
-                        if now >= t + lt + self.grace:
-                            adj.remove(r)
-                            why.append(("dropped-before", w, r))
-                            break
+                    expl = sorted([a for a in r.alts if now >= a[0] + a[1] + self.grace], key=alt_rank)
+                    if expl:
+                        adj.remove(r)
+                        why.append(("dropped-before", expl[0][2], r, expl))
         if why and not compare(ref, adj, obs):
-            for how, w, r in why:
+            for how, w, r, expl in why:
                 self.viol(
                     "expiry/lifetime-set-by-rejected-%s" % w,
                     "a registration is %s the lifetime of its latest successful write; the lifetime matches a %s that was answered 4.xx" % ("listed beyond" if how == "listed-beyond" else "gone before the end of", w.replace("-", " ")),
                     registration={"key": list(r.key), "loc": r.loc},
+                    rejected_requests_that_explain_it=[{"t": round(t, 3), "lt": lt, "request": x} for (t, lt, x) in expl],
                     mismatch=[(x, d) for x, d in mm][:3],
                     model=self.model_summary(),
                 )
@@ -717,9 +732,15 @@ class Runner:
                     self.viol("location/shared-by-distinct-registrations", "the new registration %r got location %s of the live registration %r" % (key, loc, other.key))
                     raise Stop
                 if loc in self.model.freed:
+                    # The statement's "distinct registrations never share a location" is judged for registrations that are
+                    # live together. Handing the location of a removed / expired registration to a later, different one is
+                    # what _new_pathtail does by design (RFC 9176 is silent); it is counted, and judged only on request.
                     rep.count("location_reused_after_free")
-                    if self.client_loc.get(key, (None,))[0] != loc and any(v[0] == loc for v in self.client_loc.values()):
-                        rep.count("location_reused_while_remembered_by_other_registrant")
+                    holders = [k for k, v in self.client_loc.items() if v[0] == loc and k != key]
+                    if holders:
+                        rep.count("location_reused_while_remembered_for_another_ep_d")
+                        if JUDGE_LOCATION_REUSE:
+                            self.viol("location/freed-location-reused-for-another-ep-d", "the location %s, still remembered by the registrant of %r (removed or expired), was given to the new registration %r: that registrant's next update or removal acts on the other registration" % (loc, holders[0], key))
             try:
                 self.model.register(key, loc, ref.parse_query(q), links, src, now)
             except ref.Unappliable:
@@ -729,8 +750,7 @@ class Runner:
             self.client_loc[key] = (loc, segs)
         else:
             if old is not None:
-                lt = self._alt_lt(q, ref.DEFAULT_LT)
-                old.alts.append((now, lt, opclass))
+                old.alts.append((now, self._alt_lt(q, ref.DEFAULT_LT), opclass))
             ctx["cands"] = cands
             if cc == 5:
                 rep.count("answered_5xx")
@@ -781,7 +801,7 @@ class Runner:
                     try:
                         c.update(c.at(loc), ref.parse_query(q), src, now, links=links if op == "put" else None, lenient=lenient)
                         # keep the lifetime the registration had: an implementation may apply the parameters without restarting the timer
-                        c.at(loc).alts.append((R.t, R.lt, "pre-" + opclass))
+                        c.at(loc).alts.append((R.t, R.lt, opclass + "-without-restart"))
                         cands.append((name, c))
                     except ref.Unappliable:
                         pass
@@ -820,7 +840,7 @@ class Runner:
             if R is not None:
                 self.nontrivial = True
                 if op != "del":
-                    R.alts.append((now, self._alt_lt(q, R.lt), opclass))
+                    self.model.note_rejected(R, ref.parse_query(q), now, opclass)
                 if op == "put" and code_str == "4.05":
                     self.put_codes.add("4.05")
             elif cc == 4:
